@@ -271,6 +271,7 @@ func (fx *Fx) havocTrace(st *State) {
 	st.assume(app("<=", n0, n1))
 	st.trN = n1
 	// whoever extended the trace may also have read the context's error
+	st.ghost["ctxerrval"] = Val{T: types.Universe.Lookup("error").Type(), S: SRef, X: fx.d.freshConst("ctxerrval", SRef)}
 	if g, ok := st.ghost["ctxerrat"]; ok {
 		c := fx.d.freshConst("ctxerrat", SInt)
 		st.assume(and(app("<=", g.X, c), app("<=", c, n1)))
